@@ -45,12 +45,16 @@ def step(eng, c, real_bc):
             return c
         raise Cut()
 
+    from mc import budget
+
     BCA.pop_propagator = pop
+    budget.start(E.PASS_JUMP_BUDGET)
     try:
         return int(real_bc(*eng.alg_args))
     except Cut:
         return None
     finally:
+        budget.stop()
         BCA.pop_propagator = real_pop
 
 
@@ -222,7 +226,12 @@ class Mon(E.Monitor):
         self.ref, self.real_bc, self.cap = ref, real_bc, cap
 
     def on_node(self, eng, acc):
-        explore_orders(eng, acc, self.ref, self.real_bc, self.cap)
+        node = eng.snapshot()
+        try:
+            explore_orders(eng, acc, self.ref, self.real_bc, self.cap)
+        except Exception as e:  # noqa  (non-terminating / crashing propagator: C04 / C16 report it)
+            acc.caps.append(f"wake-up order exploration of {eng.spec.get('tag')} stopped: {type(e).__name__}")
+            eng.restore(node)
 
 
 def eligible(spec, tier):
@@ -341,7 +350,7 @@ def run(tier, seed):
     t0 = time.time()
     units = [(tier, typ, insts) for (_p, _t, typ, insts) in propmc.units_for(PROP, tier, RESTRICTED)]
     acc = pmap(trig_unit, units, seed)
-    eng, nspecs = SC.run_units(unit, tier, seed, ("F1", "F2", "F3", "F4", "F5"), chunk=20, filt=lambda s: eligible(s, tier))
+    eng, nspecs = SC.run_units(unit, tier, seed, ("F1", "F2", "F3", "F4", "F5", "F6"), chunk=20, filt=lambda s: eligible(s, tier))
     acc.merge(eng)
     cov = {
         "states": acc.c["sched_states"] + acc.c["states"] + acc.c["fixpoint_boxes"],
